@@ -251,10 +251,10 @@ link_objs = [
 ]
 put("pdf", "links-classic.pdf", build_pdf(link_objs, b"/Info << /Title (t) >> "))
 put("pdf", "links-xrefstream.pdf", build_pdf(link_objs, xref_stream=True, version=b"1.5"))
+# (a page tree that contains itself is the known finding pdf/kf-pagetree-cycle-stackoverflow.pdf, kept by hand)
 loop_objs = list(link_objs)
-loop_objs[1] = b"<< /Type /Pages /Kids [3 0 R 2 0 R 9 0 R] /Count 3 /Parent 2 0 R >>"
 loop_objs[9] = b"[ 11 0 R 10 0 R ]"
-put("pdf", "links-selfref.pdf", build_pdf(loop_objs))
+put("pdf", "links-annots-selfref.pdf", build_pdf(loop_objs))
 
 # ------------------------------------------------------------------------------------------------ script content
 put("script", "welcomebar.js", """
